@@ -948,6 +948,45 @@ func (g *pgen) rel() PRel {
 	return x
 }
 
+// mixGroups gives some groups elements of a second and third type. The format says a group holds one type, the
+// wire format does not enforce it and the decoder reads such a group element by element in field order (dense
+// nodes, ways, relations - the order primitiveBlock writes them in): files for properties that speak about all
+// files, not only valid ones.
+func mixGroups(r *Rng, f *PFile, maxN int) {
+	for bi := range f.Blocks {
+		bl := &f.Blocks[bi]
+		g := &pgen{r: r, st: bl.Strings, ix: map[string]int{}, dg: 1000}
+		for i, s := range bl.Strings {
+			if _, ok := g.ix[s]; !ok {
+				g.ix[s] = i
+			}
+		}
+		if bl.DateGran != nil {
+			g.dg = *bl.DateGran
+		}
+		for gi := range bl.Groups {
+			if !r.Chance(30) {
+				continue
+			}
+			gr := &bl.Groups[gi]
+			if gr.Dense == nil && r.Bool() {
+				gr.Dense = g.dense(maxN)
+			}
+			if len(gr.Ways) == 0 && r.Bool() {
+				for i := 1 + r.Intn(3); i > 0; i-- {
+					gr.Ways = append(gr.Ways, g.way())
+				}
+			}
+			if len(gr.Rels) == 0 && r.Bool() {
+				for i := 1 + r.Intn(3); i > 0; i-- {
+					gr.Rels = append(gr.Rels, g.rel())
+				}
+			}
+		}
+		bl.Strings = g.st
+	}
+}
+
 // genPFile makes a valid file. size bounds the elements per group.
 func genPFile(r *Rng, maxBlocks, maxN int) *PFile {
 	f := &PFile{Header: &PHeader{}}
